@@ -212,6 +212,19 @@ Theorem C14_copy_restore : forall a b t i b' c later b2,
 Proof. exact copy_restore. Qed.
 Print Assumptions C14_copy_restore.
 
+(* the production path of a lagging replica: PrepareSnapshot (use the local checkpoint or fetch the
+   peer's), later RestoreFromSnapshot *)
+Theorem C14_fetch_restore : forall a b t i b' later b2,
+  wf b -> pending_not (enc_name t i) b ->
+  vfetch a b t i = (b', ROk) ->
+  Forall (not_backup_of (enc_name t i)) later ->
+  vstep (run b' later) (ORestore t i) = (b2, ROk) ->
+  exists c, vs_val b2 = ck_val c /\
+    (ck_lookup (vs_cks b) (enc_name t i) = Some c \/
+     (ck_lookup (vs_cks b) (enc_name t i) = None /\ ck_lookup (vs_cks a) (enc_name t i) = Some c)).
+Proof. exact fetch_restore. Qed.
+Print Assumptions C14_fetch_restore.
+
 (* what the store's own purge (after a backup, after a restore) discards was selected by
    purgeOldCheckpoint with keepNum >= 1: theorems (3) apply *)
 Theorem C14_store_purge : forall s n c,
